@@ -229,7 +229,8 @@ func (r *persistRule) OnInstr(e *Engine, st *State, fc *FrameCtx, in ssa.Instruc
 }
 
 func (r *persistRule) checkRecord(e *Engine, st *State, fc *FrameCtx, in ssa.Instruction, rec ssa.Value) {
-	al, ok := stripConv(rec).(*ssa.Alloc)
+	rv, _ := e.ArgValue(fc, rec)
+	al, ok := stripConv(rv).(*ssa.Alloc)
 	if !ok {
 		e.Report(st, in.Pos(), "persist-fn/record/shape", "cannot see how the record handed to Append is built (not a composite literal of this function)")
 		return
